@@ -207,6 +207,11 @@ func modeIter(_ int, seed int64) {
 			emit(resp)
 		}
 	}
+	// goroutines of the last iterations may still be on their way out: a leaked one stays for good, so wait
+	// (generously, the machine may be loaded) until the count is back to the main goroutine and the watchdog
+	for w := 0; w < 6000 && runtime.NumGoroutine() > 2; w++ {
+		time.Sleep(10 * time.Millisecond)
+	}
 	sends, full, empty, maxlen, hooked := iterStats()
 	emit(map[string]any{"summary": true, "goroutines": runtime.NumGoroutine(), "gomaxprocs": runtime.GOMAXPROCS(0),
 		"sends": sends, "full": full, "empty": empty, "maxlen": maxlen, "hooked": hooked})
